@@ -72,3 +72,36 @@ package p2j
 //@     invariant mem: len(*out) >= old(len(*out)) && ((same(*out, old(*out)) && cap(*out) == old(cap(*out))) || fresh(*out))
 //@     decreases len(p.Buf) - p.Read
 
+
+// doRecurse (dispatch to the list / map / singular converters): only its FRAME is used by `do` — the output grows,
+// its prefix is kept, the cursor does not move back. TRUSTED: the map converter and the message / string cases of
+// the singular converter are not under contract.
+//@ spec (*BinaryConv).doRecurse
+//@   trusted
+//@   ensures mono: len(*out) >= old(len(*out)) && old(p.Read) <= p.Read && p.Read <= len(p.Buf)
+//@   ensures prefix: forall i :: 0 <= i && i < old(len(*out)) ==> (*out)[i] == old((*out)[i])
+//@   ensures mem: (same(*out, old(*out)) && cap(*out) == old(cap(*out))) || fresh(*out)
+//@   modifies *out, (*out)[len(*out):cap(*out)], p.Read
+
+// do, message descriptors: the top-level loop terminates (every round consumes a tag), an unknown field is an error
+// exactly under DisallowUnknownField, the output opens with '{', nothing before it is touched — and a separator is
+// pending (`comma`) exactly when a member has been written since the '{' (seed C08-3 derives the separator from the
+// cursor position instead).
+//@ spec (*BinaryConv).do
+//@   props C08 C06
+//@   timeout 40
+//@   requires ptrs: self != nil && out != nil && desc != nil && !samerg(out, *out) && !samerg(desc, *out) && !samerg(self, *out) && !samerg(src, *out) && !samerg(desc, out) && !samerg(self, out) && \
+//@       !samerg(src, out)
+//@   requires msg: desc.typ == proto.MESSAGE && desc.msg != nil && !samerg(desc.msg, *out) && !samerg(desc.msg, out)
+//@   callsite (*MessageDescriptor).ByNumber assumes schema: r0 != nil ==> r0.typ != nil
+//@   ensures open: err == nil ==> len(*out) >= old(len(*out)) + 2 && (*out)[old(len(*out))] == 0x7b && (*out)[len(*out)-1] == 0x7d
+//@   ensures prefix: forall i :: 0 <= i && i < old(len(*out)) ==> (*out)[i] == old((*out)[i])
+//@   modifies *out, (*out)[len(*out):cap(*out)]
+//@   loop 1
+//@     invariant sep: !samerg(out, *out) && !samerg(desc, *out) && !samerg(self, *out) && !samerg(src, *out) && !samerg(desc.msg, *out)
+//@     invariant same: same(p.Buf, src) && len(p.Buf) == len(src) && 0 <= p.Read && p.Read <= len(src) && same(messageDesc, desc.msg)
+//@     invariant mem: (same(*out, old(*out)) && cap(*out) == old(cap(*out))) || fresh(*out)
+//@     invariant comma: comma <==> len(*out) > old(len(*out)) + 1
+//@     invariant open: len(*out) >= old(len(*out)) + 1 && (*out)[old(len(*out))] == 0x7b
+//@     invariant prefix: forall i :: 0 <= i && i < old(len(*out)) ==> (*out)[i] == old((*out)[i])
+//@     decreases len(src) - p.Read
